@@ -21,6 +21,7 @@ Res(c) ==
   IN << Add(a, b), Sub(hi, lo), Mul(a, b), DivMod(Mul(a, b), m), Rem(a, m), Quo(a, m),
         AddM(am, bm, m), SubM(am, bm, m), NegM(am, m), MulM(am, bm, m), PowMI(am, 5, m), PowM(am, <<7, 1>>, m),
         Half(a), Double(b), NumBits(a), Bit(a, 3), Bit(b, 64), BitsLE(a, 20), BytesLE(b, 5), OfBitsLE(BitsLE(a, 70)),
+        BitAnd(a, b), BitOr(a, b), BitXor(a, b), ShrBits(a, 13), LowBits(b, 21), RotR(LowBits(a, 32), 7, 32), IRoot(a, 2), IRoot(b, 3),
         Cmp(a, b), Lt(a, b), Le(a, a), Pow2(77), MulInt(a, 1000), OfInt(123456789), ToInt(<<21, 205, 91, 7>>), Trim(a \o <<0, 0>>) >>
 
 ASSUME \A i \in 1..Len(Cases) : PrintT(<<"SELFTEST", i, Res(Cases[i])>>)
